@@ -24,6 +24,8 @@ type PathSample struct {
 }
 
 type UnitResult struct {
+	KnownSeen      map[string]int // counterexamples per recorded finding
+	NewViols       int            // counterexamples outside every recorded finding
 	Unit           *Unit
 	Tier           string
 	Cfg            *TierCfg
@@ -137,7 +139,7 @@ func pathHash(p []int, seed int64) uint32 {
 
 // explore runs the harness over every feasible path within the bounds of the tier.
 func explore(ld *loaded, u *Unit, tc *TierCfg, seed int64, smtlog string) *UnitResult {
-	res := &UnitResult{Unit: u, Cfg: tc, Reached: map[string]bool{}, FuncSteps: map[string]int{}, AbortReasons: map[string]int{}, ByBackend: map[string]int{}}
+	res := &UnitResult{Unit: u, Cfg: tc, KnownSeen: map[string]int{}, Reached: map[string]bool{}, FuncSteps: map[string]int{}, AbortReasons: map[string]int{}, ByBackend: map[string]int{}}
 	h := ld.pkg.Func(u.Harness)
 	workers := tc.Workers
 	if workers <= 0 {
@@ -285,11 +287,23 @@ func explore(ld *loaded, u *Unit, tc *TierCfg, seed int64, smtlog string) *UnitR
 				if unsup != "" {
 					res.Unsup = append(res.Unsup, unsup)
 				}
-				res.Viols = append(res.Viols, e.Viol...)
+				for _, v := range e.Viol {
+					if v.Known != "" {
+						// counterexamples of a recorded finding do not end the exploration (everything else must
+						// still be looked at); a bounded number of them is kept for the native confirmation
+						res.KnownSeen[v.Known]++
+						if res.KnownSeen[v.Known] > 60 {
+							continue
+						}
+					} else {
+						res.NewViols++
+					}
+					res.Viols = append(res.Viols, v)
+				}
 				if sample != nil && len(res.Samples) < tc.Validate {
 					res.Samples = append(res.Samples, *sample)
 				}
-				stop := res.Paths >= maxPaths || len(res.Unsup) > 20 || len(res.Viols) > 200
+				stop := res.Paths >= maxPaths || len(res.Unsup) > 20 || res.NewViols > 200
 				if res.Paths >= maxPaths {
 					res.Truncated = true
 				}
